@@ -176,6 +176,19 @@ def monitorObs (tbl : Table) (hyp : Bool) (c : Custom) (m : String) (toks : Opti
         | _, _ => false
       if good then .ok else .expected .notFound
 
+/-- the monitor for a request that ARRIVES with path variables of an outer router in its context (`outer`, non-empty):
+`ServeHTTP` installs the route's variables only when it bound some, so a route without variables leaves the context
+alone.  A hit is accepted when the plain monitor accepts it, or when the handler saw exactly the outer variables and
+the plain monitor accepts the same handler with no variables (the chosen route binds nothing). -/
+def monitorObsCtx (tbl : Table) (hyp : Bool) (c : Custom) (m : String) (toks : Option (List String))
+    (outer : List (String × String)) (o : Obs) : Verdict :=
+  match o with
+  | .hit h vars =>
+    if monitorObs tbl hyp c m toks (.hit h vars) = .ok then .ok
+    else if !outer.isEmpty && sameSet vars outer then monitorObs tbl hyp c m toks (.hit h [])
+    else monitorObs tbl hyp c m toks (.hit h vars)
+  | o => monitorObs tbl hyp c m toks o
+
 /-! ### `search.Tree` used directly with raw (uncleaned) strings -/
 
 /-- the route a raw token list denotes: a single trailing empty element (trailing slash) is dropped. -/
